@@ -25,11 +25,11 @@ TRUSTED_CORE = [
 ]
 STORAGE_ASSUMED = ("abstract Storage contract (DESIGN 3.3: iteration yields `items`, append/swap/reset/temp as specified, deserialisation = dec): database.py is verified against it. "
                    "MemoryStorage's methods (append, __len__, _init/_cleanup_temp_storage, _swap_temp_with_primary, _write, reset, the three (de)serialisers) are PROVED to refine it, clause by clause, "
-                   "over values (object identity / aliasing is not modelled: KF-18 is the known deviation, MemoryStorage hands out its own objects); its two-line generator __iter__ and read() are read, not proved. "
+                   "over values (object identity / aliasing is not modelled: KF-18 is the known deviation, MemoryStorage hands out its own objects); its generator __iter__ is proved to yield exactly the primary list in order; read() (inherited list(...) over that iteration) and __init__ are read, not proved. "
                    "CSVStorage is proved against the I/O effect model (C04/C12/C13/C15/C16) whose postconditions match these clauses by inspection; CSVStorage.__init__ is not under contract")
 MS_ = "tinyflux.storages.MemoryStorage."
 MEM_REFINEMENT = [MS_ + f for f in ("append", "__len__", "_init_temp_storage", "_cleanup_temp_storage", "_swap_temp_with_primary", "_write", "reset",
-                                    "_deserialize_storage_item", "_deserialize_measurement", "_serialize_point")]
+                                    "_deserialize_storage_item", "_deserialize_measurement", "_serialize_point", "__iter__")]
 QUERY_ASSUMED = "query objects: q(point) is total and equals the meaning function sem (C09); for index-eligible simple queries (truthy hash) the path/test closures behave as summarised in contracts/model.py query_axioms (discharged on queries.py under C09/C17)"
 TIME_ASSUMED = "datetime: aware datetimes compare by instant = comparison of timestamp(); fromtimestamp(ts).astimezone(utc) restores a stored datetime (DESIGN 4.3, validated under C08)"
 A_ALIAS = "A-alias: containers inside Index/TinyFlux are not shared; a loop that writes through the container it iterates only replaces the value of the key being visited"
